@@ -662,7 +662,9 @@ class OperatorFuncNode(Node):
         self.children["attrs"] = get_tree(state["attrs"], load_context, trusted=trusted)
 
     def _construct(self):
-        op = getattr(operator, self.class_name)
+        # resolve exactly the name that was audited, not whatever `operator`
+        # happens to expose under the same class name
+        op = gettype(self.module_name, self.class_name)
         attrs = self.children["attrs"].construct()
         return op(*attrs)
 
